@@ -402,8 +402,8 @@ func enumerate(tier string, emit func(Case) bool) bool {
 			}
 		})
 	}
-	// B: chains of 2 calls: representatives x every finisher; thorough also the
-	// full catalogue x core finishers
+	// B: chains of 2 calls: representatives x every finisher; thorough also
+	// (all units x representatives, either order) x core finishers - see below
 	setB := rep1
 	if thorough {
 		setB = rep2
@@ -431,7 +431,8 @@ func enumerate(tier string, emit func(Case) bool) bool {
 			inB[u] = true
 		}
 		chains(full, 2, func(ch []cg.Call) {
-			if inB[ch[0].Unit] && inB[ch[1].Unit] {
+			// one call over all units, the other over the representatives
+			if inB[ch[0].Unit] == inB[ch[1].Unit] {
 				return
 			}
 			for _, f := range coreFins {
@@ -543,7 +544,7 @@ func main() {
 	run.Finish(map[string]interface{}{
 		"evaluations":                   st.execs,
 		"distinct_nontrivial":           s.nontriv.Len(),
-		"rule":                          fmt.Sprintf("unit catalogue of %d units (verif/condgram); every chain of 0-1 Where/Or/Not calls (leading Or included) over all units x 22 finishers; chains of 2 calls over the class representatives (quick Rep=1, thorough Rep>=1) x 22 finishers, thorough also over all units x Find/Count/Update/Delete; inline conditions; PropagateUnscoped on and the Unscoped+NewDB nested-handle probe; chains of 3 calls over 5 shapes (quick) / the class representatives (thorough) x Find/Count/Update/Delete. Each case runs scoped on softs vs plains (live rows only) and Unscoped on softs vs plain_alls (all rows); evaluations = executions. Non-trivial = the scoped and the Unscoped observation of the case differ, i.e. a soft-deleted twin satisfies the condition and a leak would be visible; distinct by (chain, inline, finisher, config)", len(units[vSoft])),
+		"rule":                          fmt.Sprintf("unit catalogue of %d units (verif/condgram); every chain of 0-1 Where/Or/Not calls (leading Or included) over all units x 22 finishers; chains of 2 calls over the class representatives (quick Rep=1, thorough Rep>=1) x 22 finishers, thorough also one call over all units + one over the representatives x Find/Count/Update/Delete; inline conditions; PropagateUnscoped on and the Unscoped+NewDB nested-handle probe; chains of 3 calls over 5 shapes (quick) / the class representatives (thorough) x Find/Count/Update/Delete. Each case runs scoped on softs vs plains (live rows only) and Unscoped on softs vs plain_alls (all rows); evaluations = executions. Non-trivial = the scoped and the Unscoped observation of the case differ, i.e. a soft-deleted twin satisfies the condition and a leak would be visible; distinct by (chain, inline, finisher, config)", len(units[vSoft])),
 		"samples":                       s.samples.List(),
 		"exhaustive":                    complete && hs.Complete,
 		"cases":                         st.cases,
